@@ -18,7 +18,7 @@ RULE = ("Directories are drawn by Hypothesis (plain, with link files / .cap / ab
         "refers to this enumeration; the directories themselves are sampled). Concurrent readers: the states a reader "
         "can observe while a writer runs are recorded through a write gate and each is replayed as a reader request; "
         "second actor: for prefixes 0, 1, size/2, size-1, before each of the reader's file-system calls that touch the "
-        "cache file another request removes or completes the file (every call index x both actions); rewrite race: "
+        "cache file another request removes, completes or extends the file (every call index x three actions); rewrite race: "
         "with an expired complete cache in place and a same-length rename in the directory, every state of the file "
         "observed while the writer rewrites it is replayed as a reader request; killed writer: the cache-writing request runs "
         "in a forked child that dies inside the serialisation after 0 / 1 / size/2 / size-1 bytes, then the directory is listed. "
@@ -221,7 +221,7 @@ def _second_actor(cfg, root, ref, forms, ctx, d):
     size = len(orig)
     methods = ["iswritable", "unlink", "stat", "isdir", "isfile", "exists", "open"]
     saved = {m: getattr(hbase.VFS_Real, m) for m in methods}
-    state = {"n": 0, "at": None, "action": None}
+    state = {"n": 0, "at": None, "action": None, "p": 0}
 
     def act():
         if state["action"] == "remove":
@@ -229,6 +229,10 @@ def _second_actor(cfg, root, ref, forms, ctx, d):
                 os.unlink(path)
             except OSError:
                 pass
+        elif state["action"] == "grow":
+            # the other request is a writer that gets a little further and then stops (killed, disk full, stalled)
+            with open(path, "wb") as f:
+                f.write(orig[:min(size - 1, state["p"] + max(1, (size - state["p"]) // 2))])
         else:
             with open(path, "wb") as f:
                 f.write(orig)
@@ -256,8 +260,9 @@ def _second_actor(cfg, root, ref, forms, ctx, d):
             state.update(n=0, at=None)
             _listing(cfg, "gopher")
             ncalls = state["n"]
-            for action in ("remove", "complete"):
-                for j in range(ncalls + 1):
+            state["p"] = p
+            for action in ("remove", "complete", "grow"):
+                for j in range(ncalls + 3):
                     with open(path, "wb") as f:
                         f.write(orig[:p])
                     state.update(n=0, at=j, action=action)
